@@ -50,7 +50,7 @@ def alive_backend(pid):
     return "executorlib" in cmd and "backend" in cmd and st != "Z"
 
 
-def run_one(scen):
+def run_one(scen, slow=False):
     work = tempfile.mkdtemp(prefix="vh_exit_")
     scen = dict(scen, log=os.path.join(work, "log.txt"))
     sp = os.path.join(work, "scen.json")
@@ -64,7 +64,7 @@ def run_one(scen):
                           stdin=subprocess.DEVNULL, start_new_session=True, text=True)
     script_hang = False
     try:
-        pr.wait(timeout=12 + scen["n"] * scen["hold"] * 2)
+        pr.wait(timeout=(40 if slow else 12) + scen["n"] * scen["hold"] * 2)
     except subprocess.TimeoutExpired:
         script_hang = True
     errf.close()
@@ -78,7 +78,7 @@ def run_one(scen):
             return []
 
     # wait for the calls already submitted to finish, then give the workers time to exit on their own
-    deadline = time.monotonic() + scen["n"] * scen["hold"] + 6
+    deadline = time.monotonic() + scen["n"] * scen["hold"] + (20 if slow else 6)
     while time.monotonic() < deadline and not script_hang:
         ls = lines()
         ent = [l for l in ls if l.startswith("enter ")]
@@ -87,7 +87,7 @@ def run_one(scen):
         if len(ex) >= len(ent) and not any(alive_backend(p) for p in pids) and pr.poll() is not None:
             break
         time.sleep(0.05)
-    grace_until = time.monotonic() + 3.0
+    grace_until = time.monotonic() + (12.0 if slow else 3.0)
     ls = lines()
     pids = sorted({int(l.split()[2]) for l in ls if l.startswith("enter ")})
     ghosts = [p for p in pids if alive_backend(p)]
@@ -124,8 +124,21 @@ def run(ctx, n):
     scens = scenarios(ctx.rng, n)
     with ThreadPoolExecutor(max_workers=8) as pool:
         outs = list(pool.map(run_one, scens))
+    # what looks wrong is decided by time limits: run it again, alone, with longer limits, and judge that run
+    reruns = [0]
+    for k, o in enumerate(outs):
+        lost = (not o["script_hang"]) and o["script_end"] and sorted(o["done"]) != list(range(o["scenario"]["n"]))
+        if o["ghosts"] or o["script_hang"] or (lost and o["scenario"]["executor"].get("block_allocation")):
+            if reruns[0] < 3:
+                reruns[0] += 1
+                outs[k] = run_one(scens[k], slow=True)
+                ctx.count("exit.rerun_with_longer_limits")
+            else:
+                outs[k] = None          # not confirmed, not judged (the first three decide)
+                ctx.count("exit.unconfirmed_skipped")
     repo = os.path.realpath(os.environ.get("VERIF_REPO", "/repo"))
     bad_ghost, bad_lost = [], []
+    outs = [o for o in outs if o is not None]
     for o in outs:
         if not o["pin"] or not os.path.realpath(o["pin"]).startswith(repo + os.sep):
             raise InfraError("exit runner imported executorlib from %s (%s)" % (o["pin"], o["stderr_tail"]))
